@@ -264,7 +264,10 @@ def storage_fault_sweep(schedules, action, kmax, per=1):
             continue
         pos = idx[-1]
         for k in range(1, kmax + 1):
-            hh = list(h)
-            hh.insert(pos, {"a": "StorageFault", "r": h[pos]["r"], "k": k, "ops": [], "urg": "-"})
+            # the schedule is cut after the faulted action: TLC generated the rest assuming the
+            # action succeeded (later edits could be invalid operations otherwise); the harness
+            # then syncs everybody to quiescence
+            hh = list(h[:pos]) + [{"a": "StorageFault", "r": h[pos]["r"], "k": k, "ops": [], "urg": "-"},
+                                  h[pos]]
             out.append(hh)
     return out
